@@ -48,6 +48,15 @@ Theorem C37_receiver_meets_spec : forall n pw cw sw down, n = 2 ^ pw -> n < 2 ^ 
 Proof. exact hr_meets_spec. Qed.
 Print Assumptions C37_receiver_meets_spec.
 
+(* 4. what acceptance by sp_mon means for histories: over any stretch in which the link stays up and the monitor
+      accepts (sp_run = Some ...), the headers handed to the protocol layer followed by those still queued are exactly
+      the headers queued before followed by the headers accepted -- each accepted header is offered once, in order *)
+Theorem C37_exactly_once_in_order : forall n sw down ios g gf a d,
+  Forall (fun io => restart (fst io) = false) ios ->
+  sp_run n sw down g ios = Some (gf, a, d) -> s_q g ++ a = d ++ s_q gf.
+Proof. exact sp_fifo. Qed.
+Print Assumptions C37_exactly_once_in_order.
+
 (* ---- non-vacuity: a concrete U0 history of the complete receiver (n = 4, 3-bit sequence numbers) in which the
    partner keeps its rules in every cycle: advertisement LGOOD 7, LCRD A..D, then LUNA's own test header
    (sequence number 0) is accepted, offered on the queue, acknowledged by LGOOD 0, taken, and its buffer re-advertised
